@@ -9,7 +9,7 @@ import time
 
 from . import invariants, sut, wire
 
-ENDINGS = ["kill-then-close", "kill-then-rst", "close", "rst"]
+ENDINGS = ["kill-then-close", "kill-then-rst", "close", "rst", "contended"]
 
 
 def _names(c, chan):
@@ -21,8 +21,100 @@ def _names(c, chan):
     return got
 
 
+def run_contended(args):
+    """sessions end (QUIT, close, reset, KILL) while other connections keep the state lock busy with OPER password checks:
+    the clean-up has to wait for the lock, not to be skipped"""
+    import threading
+    binary, hooks, seed, ending = args
+    out = dict(findings=[], inconclusive=None, events=0, cls=("contended", "ok"), ending=ending)
+    cfg = dict(operators=[{"name": "root", "password": sut.password_hash(binary, "rootpw")}])
+    cs = []
+    try:
+        with sut.Server(binary, cfg, hooks=hooks) as srv:
+            def cl(name):
+                c = wire.Client(srv.port, name=name, timeout=15.0)
+                c.keep_transcript = False
+                cs.append(c)
+                return c
+            obs, o = cl("obs"), cl("o")
+            obs.register("watch", "watch")
+            o.register("olga", "olga")
+            o.send("OPER root rootpw")
+            o.ping("op")
+            obs.send("JOIN #cd")
+            obs.ping("j")
+            vics = []
+            for i, how in enumerate(["QUIT", "close", "rst", "KILL", "QUIT", "close"]):
+                v = cl("v%d" % i)
+                v.register("cv%d" % i, "cv")
+                v.send("JOIN #cd,#own%d" % i)
+                v.ping("j")
+                vics.append((v, "cv%d" % i, how))
+            busy = [cl("b%d" % i) for i in range(4)]
+            for i, b in enumerate(busy):
+                b.register("cb%d" % i, "cb")
+            stop = []
+
+            def hammer(c):
+                try:
+                    while not stop:
+                        c.send_raw(b"OPER root not-the-password\r\n" * 10 + b"PING h\r\n")
+                        c.read_until(lambda m: m.verb == "PONG", 30.0)
+                except (wire.Closed, wire.Timeout, OSError):
+                    pass
+            ths = [threading.Thread(target=hammer, args=(b,), daemon=True) for b in busy]
+            for t in ths:
+                t.start()
+            time.sleep(0.05)
+            for v, nick, how in vics:
+                if how == "QUIT":
+                    v.send("QUIT :contended")
+                elif how == "close":
+                    v.close()
+                elif how == "rst":
+                    v.close_rst()
+                else:
+                    o.send("KILL %s :contended" % nick)
+                time.sleep(0.03)
+            time.sleep(0.4)
+            stop.append(1)
+            for t in ths:
+                t.join(35.0)
+            time.sleep(0.3)
+            obs.send("ISON " + " ".join(n for _, n, _ in vics))
+            il = obs.ping("is", 15.0)
+            left = " ".join(m.params[-1] for m in il if m.verb == "303").split()
+            names = _names(obs, "#cd")
+            out["events"] += len(il) + len(names)
+            if left:
+                out["findings"].append(("stuck:contended-ghost", "sessions that ended (%s) while the state lock was busy are still "
+                                        "registered: %s" % ({n: h for _, n, h in vics if n in left}, left)))
+            ghosts = sorted(n for n in names if n.lstrip("~&@%+").startswith("cv"))
+            if ghosts:
+                out["findings"].append(("stuck:contended-ghost-member", "#cd still lists %s after their sessions ended" % ghosts))
+            if hooks:
+                s_ = srv.snap()
+                for inv_id, detail in invariants.check(s_):
+                    if inv_id != "I9":
+                        out["findings"].append(("stuck:inv:" + inv_id, "[contended] " + detail))
+                if any(k.startswith("#own") for k in s_["channels"]):
+                    out["findings"].append(("stuck:contended-ghost-channel", "channels of ended sessions still exist: %s"
+                                            % sorted(k for k in s_["channels"] if k.startswith("#own"))))
+    except (wire.Closed, wire.Timeout, OSError, RuntimeError) as ex:
+        out["inconclusive"] = "contended endings: %r" % (ex,)
+    finally:
+        for c in cs:
+            try:
+                c.close()
+            except OSError:
+                pass
+    return out
+
+
 def run_case(args):
     binary, hooks, seed, ending = args
+    if ending == "contended":
+        return run_contended(args)
     rng = random.Random(seed)
     out = dict(findings=[], inconclusive=None, events=0, cls=None, ending=ending)
 
